@@ -336,9 +336,9 @@ def idxText : Idx → String
 
 /-- `fs`: the `fork` annotations above (rendered inside the references they qualify, like
 the known indices of `RefExp.Forks`; sorted by call id, innermost annotation wins) -/
-partial def printRF (table : List (String × List String)) (ctl : List String) (fs : List (String × Idx)) : RExp → String
+partial def printRF (info : List (String × List String × RBMap × List RExp)) (table : List (String × List String)) (ctl : List String) (fs : List (String × Idx)) : RExp → String
   | .lit j => "(lit " ++ printJV j ++ ")"
-  | .arr xs => "(arr" ++ String.join (xs.map fun x => " " ++ printRF table ctl fs x) ++ ")"
+  | .arr xs => "(arr" ++ String.join (xs.map fun x => " " ++ printRF info table ctl fs x) ++ ")"
   | .map kvs => "(map" ++ kvText kvs ++ ")"
   | .struct kvs => "(st" ++ kvText kvs ++ ")"
   | .ref node _ path =>
@@ -346,25 +346,29 @@ partial def printRF (table : List (String × List String)) (ctl : List String) (
       String.join ((sortKV ((fs.filter fun e => ((table.lookup node).getD []).contains e.1).map fun e =>
         (e.1, idxText e.2))).map fun e => " (fk " ++ e.1 ++ " " ++ e.2 ++ ")") ++
       String.join (path.map fun p => " " ++ p) ++ ")"
-  | .split c _ e => "(split " ++ c ++ " " ++ printRF table ctl fs e ++ ")"
-  | .merge c _ e => "(merge " ++ c ++ " " ++ printRF table ctl fs e ++ ")"
+  | .split c _ e => "(split " ++ c ++ " " ++ printRF info table ctl fs e ++ ")"
+  | .merge c _ e =>
+    "(merge " ++ (match info.lookup c with | some (path, _, _) => ".".intercalate path | none => c) ++ " " ++
+      (match mergeForkNode table (fun p => ".".intercalate p) info c e with
+       | some n => "(fn " ++ n ++ ") "
+       | none => "(fn) ") ++ printRF info table ctl fs e ++ ")"
   | .disabled d v =>
     -- two wrappers on the same control are one (the compiler's pointer-equality shortcut)
     -- a control that is itself conditional on an enclosing control is that control's value
     -- (`resolveDisableExp`, case `*DisabledExp`: "already disabled on the same control")
     let ds := match d with
-      | .disabled d0 x => if ctl.contains (printRF table ctl fs d0) then printRF table ctl fs x else printRF table ctl fs d
-      | _ => printRF table ctl fs d
-    let vs := printRF table (ds :: ctl) fs v
+      | .disabled d0 x => if ctl.contains (printRF info table ctl fs d0) then printRF info table ctl fs x else printRF info table ctl fs d
+      | _ => printRF info table ctl fs d
+    let vs := printRF info table (ds :: ctl) fs v
     if ctl.contains ds then vs
     else if vs.startsWith ("(dis " ++ ds ++ " ") then vs else "(dis " ++ ds ++ " " ++ vs ++ ")"
-  | .fork c ix e => printRF table ctl ((c, ix) :: fs.filter fun x => x.1 != c) e
+  | .fork c ix e => printRF info table ctl ((c, ix) :: fs.filter fun x => x.1 != c) e
 where
   kvText (kvs : List (String × RExp)) : String :=
-    String.join ((sortKV (kvs.map fun kv => (hexOfStr kv.1, printRF table ctl fs kv.2))).map fun kv =>
+    String.join ((sortKV (kvs.map fun kv => (hexOfStr kv.1, printRF info table ctl fs kv.2))).map fun kv =>
       " (kv " ++ kv.1 ++ " " ++ kv.2 ++ ")")
 
-def printR (table : List (String × List String)) (ctl : List String) : RExp → String := printRF table ctl []
+def printR (info : List (String × List String × RBMap × List RExp)) (table : List (String × List String)) (ctl : List String) : RExp → String := printRF info table ctl []
 
 partial def hasFork : RExp → Bool
   | .lit _ => false
@@ -395,20 +399,20 @@ def isLitTrue : RExp → Bool
   | _ => false
 
 /-- `table`: node name ↦ the fork roots it depends on (what the compiler prints) -/
-def printStatic (table : List (String × List String)) (out : RExp) (nodes : List SNode) : String :=
+def printStatic (info : List (String × List String × RBMap × List RExp)) (table : List (String × List String)) (out : RExp) (nodes : List SNode) : String :=
   "(cg" ++ String.join ((nodes.filter fun n => !n.disable.any isLitTrue).map fun n =>
     -- the node's controls, each simplified with respect to the earlier ones, without repetitions
     let ctl := n.disable.foldl (fun acc d =>
       let ds := match d with
-        | .disabled d0 x => if acc.contains (printR table acc d0) then printR table acc x else printR table acc d
-        | _ => printR table acc d
+        | .disabled d0 x => if acc.contains (printR info table acc d0) then printR info table acc x else printR info table acc d
+        | _ => printR info table acc d
       if acc.contains ds then acc else acc ++ [ds]) []
     " (node " ++ fqid n.path ++ " (forks" ++
       String.join (((table.lookup (fqid n.path)).getD []).map fun d => " " ++ d) ++ ")" ++
       " (disabled" ++ String.join (ctl.map fun d => " " ++ d) ++ ")" ++
       String.join (n.inputs.map fun kv =>
-        s!" (in {kv.1} {kv.2.ty.base} {kv.2.ty.mapDim} {kv.2.ty.arrDim} " ++ printR table [] kv.2.exp ++ ")") ++ ")") ++
-  " (out " ++ printR table [] out ++ "))"
+        s!" (in {kv.1} {kv.2.ty.base} {kv.2.ty.mapDim} {kv.2.ty.arrDim} " ++ printR info table [] kv.2.exp ++ ")") ++ ")") ++
+  " (out " ++ printR info table [] out ++ "))"
 
 def noDisabled (P : Program) : Bool :=
   Call.plain P.top && P.callables.all fun c =>
@@ -421,10 +425,76 @@ def sameRun (a b : J × List Inst) : Bool :=
   a.1.matches b.1 && a.2.length == b.2.length &&
     (a.2.zip b.2).all fun p => renderKey p.1.key == renderKey p.2.key && p.1.args.matches p.2.args
 
+/-- equality of two runs without `dnull` on the left (`≈` is equality on such values:
+`approx_is_eq_on_values`) -/
+def exactRun (a b : J × List Inst) : Bool :=
+  a.1.clean && a.1.approx b.1 && a.2.length == b.2.length &&
+    (a.2.zip b.2).all fun p => renderKey p.1.key == renderKey p.2.key && p.1.args.clean && p.1.args.approx p.2.args
+
+def idxLt : Idx → Idx → Bool
+  | .i a, .i b => a < b
+  | .k a, .k b => a < b
+  | .i _, _ => true
+  | _, _ => false
+
+def insertIdx (x : Idx) : List Idx → List Idx
+  | [] => [x]
+  | y :: ys => if x == y then y :: ys else if idxLt x y then x :: y :: ys else y :: insertIdx x ys
+
+/-- the index sets the run recorded: the indices / keys of call `c` (the last element of the key's
+path) in the fork ids of the stage instances below it that fork over it, in the given fork of the
+calls around it -/
+def recordedIdx (keys : List InstKey) : IdxRec := fun k =>
+  match k.path.getLast? with
+  | none => []
+  | some c =>
+    let cand := keys.filter fun j =>
+      k.path.isPrefixOf j.path && k.forks.all fun e =>
+        match j.forks.lookup e.1 with
+        | some v => v == e.2
+        | none => true
+    (cand.filterMap fun j => j.forks.lookup c).foldr insertIdx []
+
+mutual
+partial def hasMapMode : STree → Bool
+  | .node _ => false
+  | .sub _ m _ _ ch => m || ch.any hasMapMode
+  | .guard _ ch => ch.any hasMapMode
+  | .subR _ m _ _ _ ch => m || ch.any hasMapMode
+end
+
+mutual
+/-- (static map mode, run-time map mode, a map-mode call with something mapped or guarded below) -/
+partial def mapModeKinds : STree → Bool × Bool × Bool
+  | .node _ => (false, false, false)
+  | .sub _ m _ _ ch =>
+    let r := ch.foldl (fun a t => let x := mapModeKinds t; (a.1 || x.1, a.2.1 || x.2.1, a.2.2 || x.2.2)) (false, false, false)
+    (m || r.1, r.2.1, r.2.2 || (m && ch.any fun t => match t with | .node _ => false | _ => true))
+  | .guard _ ch =>
+    ch.foldl (fun a t => let x := mapModeKinds t; (a.1 || x.1, a.2.1 || x.2.1, a.2.2 || x.2.2)) (false, false, false)
+  | .subR _ m _ _ _ ch =>
+    let r := ch.foldl (fun a t => let x := mapModeKinds t; (a.1 || x.1, a.2.1 || x.2.1, a.2.2 || x.2.2)) (false, false, false)
+    (r.1, m || r.2.1, r.2.2 || (m && ch.any fun t => match t with | .node _ => false | _ => true))
+end
+
+mutual
+partial def subNotOk : STree → Bool
+  | .node _ => false
+  | .sub _ _ _ ok ch => !ok || ch.any subNotOk
+  | .guard _ ch => ch.any subNotOk
+  | .subR _ _ _ _ _ ch => ch.any subNotOk
+end
+
 def staticReply (P : Program) (obs : Option Obs) : String :=
   if !Call.plain P.top then "skip not-plain" else
   let s := staticProgramT P fqid
-  if !treeOkList [] s.2 then "skip map-source-not-static" else
+  let info := subRInfoList [] s.2
+  -- map calls of run-time size: call ids distinct (the index sets of the store are keyed by call id)
+  let okR := treeOkRList [] [] s.2 && decide ((info.map (·.1)).Nodup)
+  if !treeOkList [] s.2 && !okR then
+    (if s.2.any subNotOk then "skip map call not covered (empty literal / static and run-time sources mixed / disabled map call / source of unknown kind)"
+     else if !treeOkRList [] [] s.2 then "skip run-time sized source below a split over a statically sized call, or a call id repeats along a nesting chain"
+     else "skip run-time sized map calls with the same call id") else
   let nodes := flattenDList [] [] s.2
   -- a control that is an element of a split collection (`resolveDisableExp` on `SplitExp`: single
   -- elements, all-equal literals, … are simplified away): not covered
@@ -432,22 +502,43 @@ def staticReply (P : Program) (obs : Option Obs) : String :=
   let table := goForksTable fqid nodes []
   -- the hypotheses of the proved refinement (they speak about the flat static phase of
   -- Martian/ResolverStatic.lean: map calls of stages only)
-  let frag := callGraphAcyclicB P && noGuardList s.2 && Program.mapsOfStages P && wellTypedGB P && acyclicB P.table && staticProgramOk P fqid &&
+  let frag := treeOkList [] s.2 && callGraphAcyclicB P && noGuardList s.2 && Program.mapsOfStages P && wellTypedGB P && acyclicB P.table && staticProgramOk P fqid &&
     decide (((staticProgram P fqid).2.map fun n => fqid n.path).Nodup)
   -- … and of the refinement over the tree-shaped static phase (mapped pipelines, nested map calls)
-  let fragT := callGraphAcyclicB P && noGuardList s.2 && wellTypedTB P && acyclicB P.table &&
+  let fragT := treeOkList [] s.2 && callGraphAcyclicB P && noGuardList s.2 && wellTypedTB P && acyclicB P.table &&
     decide ((nodes.map fun n => fqid n.path).Nodup)
-  let (denV, rtV) :=
+  -- … and of the refinement with run-time `disabled` controls (modulo `dnull` ↦ null)
+  let fragE := treeOkList [] s.2 && callGraphAcyclicB P && wellTypedEB P && acyclicB P.table &&
+    decide ((nodes.map fun n => fqid n.path).Nodup) &&
+    (match obs with
+     | some obs => obs.outs.all fun o => J.clean o.2
+     | none => true)
+  let (denV, rtV, kindR) : String × String × String :=
     match obs with
-    | none => ("na", "na")
+    | none => ("na", "na", "")
     | some obs =>
       let O : Oracle := oracleOf obs.outs
-      let ρ := storeOfNodes fqid nodes O
+      -- the recorded index sets (where no stage instance below a call forks over it: those of the
+      -- collection it was split over)
+      let ρc := storeOfNodesR P.table P.nfuel fqid nodes info O (info.length + 1)
+      let occ := subROccList [] s.2
+      let keys := obs.outs.map (·.1) ++ (obs.jobs.filter fun j => !j.chunk).map (·.inst)
+      let I : IdxRec := fun k =>
+        match recordedIdx keys k with
+        | [] => (match k.path.getLast? with | some c => ρc.idx c k.forks | none => [])
+        | r => r
+      let ρ := storeOfRun fqid nodes occ O I
+      let fragR0 := !treeOkList [] s.2 && callGraphAcyclicB P && wellTypedEB P && acyclicB P.table &&
+        treeOkPList [] s.2 &&
+        decide ((nodes.map fun n => fqid n.path).Nodup) && decide ((occ.map (·.1)).Nodup) &&
+        (obs.outs.all fun o => J.clean o.2)
+      let fragR := fragR0 && idxOkTList P.table P.nfuel ρ [] s.2
       let d := den P O
       let t := twoPhaseT P fqid ρ
       -- (the tree theorem says den = twoPhaseT exactly when fragT; compared for every program anyway)
       let same := sameRun d t &&
-        (!frag || sameRun d (twoPhaseM P fqid (storeOfNodes fqid (staticProgram P fqid).2 O)))
+        (!frag || sameRun d (twoPhaseM P fqid (storeOfNodes fqid (staticProgram P fqid).2 O))) &&
+        (!fragE || exactRun (eraseRun d) t) && (!fragR || exactRun (eraseRun d) t)
       let jobDiff := obs.jobs.findSome? fun j =>
         if j.chunk then none else
         match t.2.find? (fun i => covers j.inst i.key) with
@@ -456,9 +547,21 @@ def staticReply (P : Program) (obs : Option Obs) : String :=
       let topDiff := diffRecord "rt-top-outs" P.top.id
         ((fieldsOf t.1).filter fun kv => !obs.skip.contains kv.1)
         ((fieldsOf obs.top).filter fun kv => !obs.skip.contains kv.1)
-      (if same then "eq" else "neq", match jobDiff.orElse (fun _ => topDiff) with | some d => d | none => "ok")
-  "\t".intercalate ["static", s!"frag={if frag || fragT then 1 else 0}", "den=" ++ denV, "rt=" ++ rtV,
-    printStatic table s.1.exp nodes]
+      (if same then "eq" else "neq", match jobDiff.orElse (fun _ => topDiff) with | some d => d | none => "ok",
+       if fragR then "R" else if fragR0 then "X" else "")
+  -- why a program is outside every proved fragment (histogram only)
+  let why := if frag || fragT || fragE || kindR == "R" then "" else
+    if !callGraphAcyclicB P then "call-graph" else
+    if !acyclicB P.table then "struct-table" else
+    if !wellTypedEB P then
+      (if s.2.any hasMapMode then
+        (let k := s.2.foldl (fun a t => let x := mapModeKinds t; (a.1 || x.1, a.2.1 || x.2.1, a.2.2 || x.2.2)) (false, false, false)
+         s!"typing: a typed-map mode map call (static={k.1} runtime={k.2.1} nested-below={k.2.2})") else "typing: other (struct to untyped map, map literal at untyped map, disabled map call, ...)") else
+    if !decide ((nodes.map fun n => fqid n.path).Nodup) then "node names" else
+    if !treeOkList [] s.2 && !treeOkPList [] s.2 then "tree: typed-map mode / cancelling merge / id repeats" else
+    if kindR == "X" then "index sets" else "oracle not clean / other"
+  "\t".intercalate ["static", s!"frag={if frag || fragT || fragE || kindR == "R" then 1 else 0}{if frag then "G" else ""}{if fragT then "T" else ""}{if fragE && !fragT then "E" else ""}{kindR}|{why}", "den=" ++ denV, "rt=" ++ rtV,
+    printStatic info table s.1.exp nodes]
 
 end static
 
